@@ -597,7 +597,9 @@ class Edit(Text):
         """
         self._shift_view_to_cursor = bool(focus)
 
-        canv: TextCanvas | CompositeCanvas = super().render(size, focus)
+        # Text.render() caches its canvas ignoring focus, but the layout used here depends on focus
+        # (the view is shifted to the cursor): don't share that canvas between the two renderings.
+        canv: TextCanvas | CompositeCanvas = Text.render.original_fn(self, size, focus)
         if focus:
             canv = CompositeCanvas(canv)
             canv.cursor = self.get_cursor_coords(size)
